@@ -45,7 +45,12 @@ class InlineLocal:
         return None
 
     def inline_ok(self, I, ci, body):
-        return base.self_adt(body) in self.adts or (body.impl_trait or '').endswith('Default')
+        if base.self_adt(body) in self.adts or (body.impl_trait or '').endswith('Default'):
+            return True
+        # free helper functions defined next to the type (same module), e.g. a table `second_octet_range(first)`
+        mods = {a.rsplit('::', 1)[0] for a in self.adts}
+        return body.kind == 'Fn' and base.self_adt(body) is None and body.npath.rsplit('::', 1)[0] in mods and not any(
+            b['term']['k'] == 'call' and F.norm_path((b['term']['func'] or {}).get('path') or '') == body.npath for b in body.blocks)
 
 
 def find_decoder(lib):
@@ -137,7 +142,7 @@ def decoder_transducer(lib):
     rule = InlineLocal({'utf8::Utf8Accum'})
     I = Interp([lib], rule)
     f = find_decoder(lib)
-    classes = fsm.partition_at(fsm.int_cuts([f]) | spec.boundaries())
+    classes = fsm.partition_at(fsm.int_cuts(fsm.with_callees(lib, [f])) | spec.boundaries())
     init = initial_state(I, lib)
     norm = make_normalise(I)
     states, trans = fsm.extract(I, f, init, classes, normalise=norm, render=render)
